@@ -417,13 +417,17 @@ class SpendingPackageAdjustment(Adjustment):
         return sum([instructions.alloc[prog_name].get(self.t) for prog_name in self.prog_name])
 
     def set_total_spend(self, instructions, total_spend):
-        if self.get_total_spend(instructions) > 0:
-            spend_factor = total_spend / self.get_total_spend(instructions)
+        current_spend = self.get_total_spend(instructions)
+        if current_spend > 0:
+            fracs = np.array([instructions.alloc[prog].get(self.t) / current_spend for prog in self.prog_name])
         else:
-            spend_factor = 0.0  # if total spending is zero, spending on each program must be zero?
-        for prog in self.prog_name:
-            ts = instructions.alloc[prog]
-            ts.insert(t=self.t, v=ts.get(self.t) * spend_factor)
+            # There is no spending to scale, so there are no proportions to preserve. Fall back to the initial
+            # proportions (equal proportions if there was no initial spending either) within the proportion bounds
+            initial_total = self.initial_spends.sum()
+            fracs = self.initial_spends / initial_total if initial_total > 0 else np.ones(len(self.prog_name)) / len(self.prog_name)
+            fracs = constrain_sum_bounded(fracs, 1, self.min_props, self.max_props)
+        for prog, frac in zip(self.prog_name, fracs):
+            instructions.alloc[prog].insert(t=self.t, v=frac * total_spend)
 
 
 class PairedLinearSpendingAdjustment(Adjustment):
